@@ -216,6 +216,7 @@ func v2echo(ctx *restli.RequestContext, rp *v2rp) *v2ent {
 	v2yield(1)
 	ctx.ResponseHeaders.Set("X-Echo", id)
 	ctx.ResponseHeaders.Set("X-Echo-Path", ctx.RequestPath())
+	ctx.ResponseHeaders.Set("X-Echo-Query", ctx.Request.URL.RawQuery) // after DecodeTunnelledQuery
 	return &v2ent{Key: strings.Join(rp.keys, ","), Ctx: id, Method: mv, Query: ctx.Request.URL.RawQuery}
 }
 
@@ -247,6 +248,7 @@ func v2build() *srvInst {
 		if v.Key == "shared" {
 			return sh.created, nil
 		}
+		ctx.ResponseHeaders.Set("X-Updated", v.Key)
 		return &common.CreatedEntity[string]{Id: "new-" + v.Key + "-" + e.Ctx}, nil
 	})
 	restli.RegisterDelete(srv, items, func(ctx RC, rp *v2rp, _ *v2qp) error { v2echo(ctx, rp); return nil })
@@ -255,8 +257,9 @@ func v2build() *srvInst {
 		ctx.ResponseHeaders.Set("X-Updated", v.Key)
 		return nil
 	})
-	restli.RegisterPartialUpdate(srv, items, none, func(ctx RC, rp *v2rp, _ *v2ent, _ *v2qp) error {
+	restli.RegisterPartialUpdate(srv, items, none, func(ctx RC, rp *v2rp, v *v2ent, _ *v2qp) error {
 		v2echo(ctx, rp)
+		ctx.ResponseHeaders.Set("X-Updated", v.Key)
 		ctx.ResponseStatus = http.StatusAccepted // a status chosen by this request only
 		return nil
 	})
@@ -355,7 +358,7 @@ func v2build() *srvInst {
 		tunnel: func(verb, query string, body []byte) ([]byte, http.Header) {
 			return restli.EncodeTunnelledQuery(verb, query, body)
 		},
-		client: func(rt http.RoundTripper, resolver interface{}, threshold int) func(op, id string) string {
+		client: func(rt http.RoundTripper, resolver interface{}, threshold int) *clientFns {
 			var hr restli.HostnameResolver
 			if r, ok := resolver.(restli.HostnameResolver); ok {
 				hr = r
@@ -364,7 +367,11 @@ func v2build() *srvInst {
 				hr = &restli.SimpleHostnameResolver{Hostname: u}
 			}
 			c := &restli.Client{Client: &http.Client{Transport: rt}, HostnameResolver: hr, QueryTunnellingThreshold: threshold}
-			return func(op, id string) string { return v2call(c, op, id) }
+			return &clientFns{
+				call:  func(op, id string) string { return v2call(c, op, id) },
+				build: func(op, id string) (*http.Request, error) { return v2buildReq(c, op, id) },
+				send:  func(req *http.Request) string { return v2send(c, req) },
+			}
 		},
 	}
 }
@@ -403,6 +410,18 @@ func v2call(c *restli.Client, op, id string) string {
 			out = fmt.Sprintf("id=%s status=%d location=%s ", ce.Id, ce.Status, v2ptr(ce.Location))
 		}
 		out += v2errString(err)
+	case "update-long": // tunnelled (query longer than the threshold) WITH a body: multipart/mixed
+		out = v2errString(restli.Update(c, ctx, rp("/items/"+id), &v2ent{Key: id}, v2longQuery(id), nil))
+	case "partial-update-long":
+		out = v2errString(restli.PartialUpdate(c, ctx, rp("/items/"+id), &v2ent{Key: id}, v2longQuery(id), nil))
+	case "create-long":
+		ce, err := restli.Create[string](c, ctx, rp("/items"), &v2ent{Key: id}, v2longQuery(id), nil)
+		if ce != nil {
+			out = fmt.Sprintf("id=%s status=%d location=%s ", ce.Id, ce.Status, v2ptr(ce.Location))
+		}
+		out += v2errString(err)
+	case "update":
+		out = v2errString(restli.Update(c, ctx, rp("/items/"+id), &v2ent{Key: id}, restli.QueryParamsString("x="+id), nil))
 	case "delete":
 		out = v2errString(restli.Delete(c, ctx, rp("/items/"+id), nil))
 	case "find", "find-long":
@@ -451,10 +470,51 @@ func v2call(c *restli.Client, op, id string) string {
 		panic("unknown client op " + op)
 	}
 	hs := []string{}
-	for _, k := range []string{"X-Echo", "X-Post-Req", "X-Post-Method", "X-Echo-Path"} {
+	for _, k := range v2echoHeaders {
 		hs = append(hs, k+"="+strings.Join(captured[k], ","))
 	}
 	return out + " | " + strings.Join(hs, " ")
+}
+
+var v2echoHeaders = []string{"X-Echo", "X-Post-Req", "X-Post-Method", "X-Echo-Path", "X-Echo-Query", "X-Updated"}
+
+func v2longQuery(id string) restli.QueryParamsString {
+	return restli.QueryParamsString("x=" + id + "&pad=" + strings.Repeat("p", 300))
+}
+
+// a request built with the exported New*Request functions, to be sent LATER (other requests are built in between)
+func v2buildReq(c *restli.Client, op, id string) (*http.Request, error) {
+	ctx := restli.ExtraRequestHeaders(context.Background(), func() (http.Header, error) {
+		return http.Header{"X-Req": []string{id}}, nil
+	})
+	rp := func(s string) restli.ResourcePathString { return restli.ResourcePathString(s) }
+	switch op {
+	case "b-update-long":
+		return restli.NewJsonRequest(c, ctx, rp("/items/"+id), v2longQuery(id), http.MethodPut, restli.Method_update, &v2ent{Key: id}, nil)
+	case "b-partial-update-long":
+		return restli.NewJsonRequest(c, ctx, rp("/items/"+id), v2longQuery(id), http.MethodPost, restli.Method_partial_update, &v2ent{Key: id}, nil)
+	case "b-create-long":
+		return restli.NewCreateRequest(c, ctx, rp("/items"), v2longQuery(id), restli.Method_create, &v2ent{Key: id}, v2readOnly)
+	case "b-update":
+		return restli.NewJsonRequest(c, ctx, rp("/items/"+id), restli.QueryParamsString("x="+id), http.MethodPut, restli.Method_update, &v2ent{Key: id}, nil)
+	case "b-get-long":
+		return restli.NewGetRequest(c, ctx, rp("/items/"+id), v2longQuery(id), restli.Method_get)
+	case "b-delete":
+		return restli.NewDeleteRequest(c, ctx, rp("/items/"+id), nil, restli.Method_delete)
+	}
+	panic("unknown build op " + op)
+}
+
+func v2send(c *restli.Client, req *http.Request) string {
+	res, err := restli.DoAndIgnore(c, req)
+	if err != nil {
+		return v2errString(err)
+	}
+	hs := []string{fmt.Sprint(res.StatusCode)}
+	for _, k := range v2echoHeaders {
+		hs = append(hs, k+"="+strings.Join(res.Header[k], ","))
+	}
+	return strings.Join(hs, " ")
 }
 
 var modV2 = srvModule{name: "v2", build: v2build}
